@@ -105,7 +105,7 @@ def padding_for(N, n):
 
 @st.composite
 def base_config(draw, nmin=16, nmax=64, max_laststep=60, min_laststep=1, multibunch=True, wake=("none", "collimator", "wall", "csr", "plates"),
-                allow_track=False, big=0, via_rev=0):
+                allow_track=False, big=0, via_rev=0, machine=0):
     """a fast, valid configuration: returns dict of options (JSON-able); big=k: one configuration in k uses a
     production-size grid (the program's default is 256); via_rev=k: one configuration in k gives the number of steps through
     StepsPerRevolution (documented to overwrite StepsPerTs, which then carries a decoy value)"""
@@ -113,6 +113,22 @@ def base_config(draw, nmin=16, nmax=64, max_laststep=60, min_laststep=1, multibu
     if big and draw(st.integers(0, big - 1)) == 0:
         n = draw(st.sampled_from([255, 256, 257, 264]))
     o = dict(GridSize=n)
+    fs_route = False
+    if machine and draw(st.integers(0, machine - 1)) == 0:
+        # another machine: every quantity main.cpp derives (synchrotron frequency, natural bunch length, time step, bucket
+        # spacing, unit factors, wake scaling) moves with these; one in three gives the synchrotron frequency instead of
+        # the momentum compaction factor (the documented second route), one in three an explicit bending radius
+        o["RevolutionFrequency"] = gen.f32(10 ** draw(st.floats(6.0, 7.3)))
+        o["HarmonicNumber"] = float(draw(st.integers(20, 400)))
+        o["BeamEnergy"] = float(10 ** draw(st.floats(8.7, 9.5)))
+        o["BeamEnergySpread"] = float(10 ** draw(st.floats(-3.7, -2.9)))
+        o["PhaseSpaceSize"] = draw(st.sampled_from([10.0, 12.0, 16.0]))
+        if draw(st.integers(0, 2)) == 0:
+            o["BendingRadius"] = float(draw(st.floats(2.0, 30.0)))
+        d0 = derive(dict(o, AcceleratingVoltage=1e9))
+        o["AcceleratingVoltage"] = float(max(2.5 * d0["V0"], 10 ** draw(st.floats(5.5, 6.5))))
+        o["alpha0"] = gen.f32(10 ** draw(st.floats(-3.5, -2.0)))
+        fs_route = draw(st.integers(0, 2)) == 0
     steps = draw(st.integers(10, 200))
     o["StepsPerTs"] = steps
     laststep = draw(st.integers(min_laststep, max_laststep))
@@ -179,12 +195,16 @@ def base_config(draw, nmin=16, nmax=64, max_laststep=60, min_laststep=1, multibu
         o["VacuumGap"] = -1.0
     elif w == "plates":
         o["VacuumGap"] = draw(st.sampled_from([0.03, 0.01]))
+    if fs_route:
+        d = derive(o)
+        o["SynchrotronFrequency"] = gen.f32(d["fs"])
+        o["alpha0"] = gen.f32(draw(st.sampled_from([1e-3, 4e-3, 2e-2])))     # decoy: the frequency overrides it
     if use_rev:
         d = derive(o)
         o["StepsPerRevolution"] = float(steps * d["fs"] / d["frev"])     # steps = StepsPerRevolution*f_rev/f_s
         o["StepsPerTs"] = decoy
-    if n >= 200:
-        # fine grids: keep the per-step decrement inside the explicit diffusion scheme's stable range (e1 < delta^2/2),
+    if n >= 200 or "BeamEnergy" in o:
+        # fine grids / other machines: keep the per-step decrement inside the explicit diffusion scheme's stable range (e1 < delta^2/2),
         # otherwise the run diverges to NaN within a few steps and nothing in its output can be judged
         d = derive(o)
         delta = d["pq"] / (n - 1)
